@@ -206,7 +206,8 @@ func runNamespace(c *Case, out *Out) {
 		}
 		files = append(files, mktor.File{Path: p, Length: ln, Pad: pad})
 	}
-	spec := mktor.Spec{Name: fmt.Sprintf("ns %d", c.ID), PieceLen: 2 * CS, Files: files, Seed: uint64(c.ID) + 3}
+	// every third case names its files through the path.utf-8 key
+	spec := mktor.Spec{Name: fmt.Sprintf("ns %d", c.ID), PieceLen: 2 * CS, Files: files, Seed: uint64(c.ID) + 3, UTF8Paths: c.ID%3 == 1}
 	if c.Single {
 		spec = mktor.Spec{Name: c.Files[0][0], PieceLen: 2 * CS, Length: files[0].Length, Seed: uint64(c.ID) + 3}
 	}
@@ -837,6 +838,25 @@ func runWebUI(c *Case, out *Out) {
 	}
 	defer ls.stop()
 	hs := ls.t.Hash.String()
+	// a torrent added from a magnet link, whose metadata never arrives: it is listed under the link's dn=
+	mhex := fmt.Sprintf("%040x", uint64(c.ID)+0xabc0000)
+	mt, err := tor.ReadMagnet("", "magnet:?xt=urn:btih:"+mhex+"&dn="+url.QueryEscape("M "+hostileFor("magnet-name", set)))
+	if err != nil || mt == nil {
+		out.Note = fmt.Sprintf("magnet: %v", err)
+		return
+	}
+	mctx, mcancel := context.WithCancel(context.Background())
+	defer mcancel()
+	mt, err = tor.AddTorrent(mctx, mt)
+	if err != nil {
+		out.Note = "magnet torrent: " + err.Error()
+		return
+	}
+	defer func() {
+		k, cc := context.WithTimeout(context.Background(), 3*time.Second)
+		mt.Kill(k)
+		cc()
+	}()
 	h := l.t.Hash.String()
 	host := map[string]string{"localhost:p": "localhost:8088", "127.0.0.1:p": "127.0.0.1:8088", "[::1]:p": "[::1]:8088", "evil.example:p": "evil.example:8088",
 		"evil.example": "evil.example", "localhost.evil.example:p": "localhost.evil.example:8088", "LOCALHOST:p": "LOCALHOST:8088", "empty": ""}[c.Host]
@@ -866,6 +886,8 @@ func runWebUI(c *Case, out *Out) {
 		target = "/" + h + "/" + url.PathEscape(dirc) + "/"
 	case "file":
 		target = "/" + h + "/plain.txt"
+	case "magnet-dir":
+		target = "/" + mhex + "/"
 	case "single-dir":
 		target = "/" + hs + "/"
 	case "single-playlist":
@@ -905,7 +927,7 @@ func runWebUI(c *Case, out *Out) {
 		if rec.Code < 400 {
 			viol("foreign-host-served", fmt.Sprintf("answered %d to a request with a foreign Host header", rec.Code))
 		}
-		if strings.Contains(page, h) || strings.Contains(page, hs) || strings.Contains(page, "plain.txt") || (rec.Code == 200 && len(page) > 0 && c.Route == "file") {
+		if strings.Contains(page, h) || strings.Contains(page, hs) || strings.Contains(page, mhex) || strings.Contains(page, "plain.txt") || (rec.Code == 200 && len(page) > 0 && c.Route == "file") {
 			viol("foreign-host-reads", "the answer to a request with a foreign Host header carries torrent data")
 		}
 		if changed {
@@ -921,7 +943,7 @@ func runWebUI(c *Case, out *Out) {
 		if strings.Contains(page, idcode) {
 			viol("unescaped:peer-id-code", fmt.Sprintf("the client code %q cut from a peer id appears unescaped in the page", idcode))
 		}
-		for _, src := range []string{"name", "dir-component", "file-component", "tracker-url", "tracker-error", "webseed-url", "known-version", "single-name"} {
+		for _, src := range []string{"name", "dir-component", "file-component", "tracker-url", "tracker-error", "webseed-url", "known-version", "single-name", "magnet-name"} {
 			raw := hostileFor(src, set)
 			if strings.Contains(page, raw) {
 				viol("unescaped:"+src, fmt.Sprintf("the %s %q appears unescaped in the page", src, raw))
